@@ -26,6 +26,39 @@ def dumpState (s : State) : String :=
   let ue := s.userDict.map fun e => dotted (printEntry cfg.names cfg.vsuf e)
   s!"freq={",".intercalate fr} user={",".intercalate ue} sessions={s.sessions.length} pending={s.pending.length}"
 
+def dumpMap (m : List (Str × List Word)) : String :=
+  let rows := m.map fun (k, ws) =>
+    (k, dotted k ++ "=" ++ ",".intercalate (ws.map fun (w : Word) => s!"{dotted w.word}/{dotted w.reading}/{speechToken w.speech}"))
+  let sorted := (rows.toArray.qsort (fun a b => ltStr a.1 b.1)).toList
+  "ok " ++ " ".intercalate (sorted.map (·.2))
+
+/-- Builder ops (C11): build the three maps from source text with the model of chokan-dic; the graph
+dictionary is handed to the kkc ops state so that `kcands` converts on it. -/
+def builderOps (k : KkcState) (tk : List (Str × List Word)) (op : String) (arg : String) :
+    Option (KkcState × List (Str × List Word) × String) :=
+  let f := fieldsOf arg
+  let g (i : Nat) : String := f.getD i ""
+  match op with
+  | "bbuild" =>
+    match buildMap cfg (parseCps (g 0)), buildMap cfg (parseCps (g 1)), buildMap cfg (parseCps (g 2)) with
+    | some (std, stdT), some (anc, ancT), some (tkm, _) =>
+      some ({ alpha := cfg.alpha, std := std, stdTrie := stdT, anc := anc, ancTrie := ancT, freq := [] }, tkm, "ok")
+    | _, _, _ => some (k, tk, "panic")
+  | "bdump" =>
+    match arg.trimAscii.toString with
+    | "std" => some (k, tk, dumpMap k.std)
+    | "anc" => some (k, tk, dumpMap k.anc)
+    | "tankan" => some (k, tk, dumpMap tk)
+    | _ => some (k, tk, "bad-dict")
+  | "bhas" =>
+    let hd := arg.splitOn " "
+    let key := parseCps (" ".intercalate (hd.drop 1))
+    let t := if hd.headD "" == "std" then k.stdTrie else k.ancTrie
+    some (k, tk, if t.any (Kkc.beqStr key) then "yes" else "no")
+  | "btankan" =>
+    some (k, tk, "ok " ++ ",".intercalate (((Kkc.findMap (parseCps arg) tk).getD []).map fun w => dotted w.word))
+  | _ => none
+
 def serverOps (st : Option State) (op : String) (arg : String) : Option (Option State × String) :=
   let f := fieldsOf arg
   let g (i : Nat) : String := f.getD i ""
